@@ -65,7 +65,20 @@ type tokMat struct {
 }
 
 func newTokMat(c *Ctx) *tokMat {
-	return &tokMat{poolFile: randBytes(c, 64), k1File: randBytes(c, 32), k2File: randBytes(c, 24), attacker: randBytes(c, 32)}
+	// key files are binary: lengths vary from run to run (1 byte .. longer than a hash block), and some
+	// begin / end with bytes that look like white space or a line end -- a loader that "tidies" the
+	// file (TrimSpace, dropping a final newline) holds another key than the one that signed
+	ws := []byte{' ', '\n', '\t', '\r'}
+	edge := func(b []byte) []byte {
+		if len(b) >= 2 {
+			b[0] = ws[c.Rng.Intn(len(ws))]
+			b[len(b)-1] = ws[c.Rng.Intn(len(ws))]
+		}
+		return b
+	}
+	sizes := []int{1, 7, 16, 24, 32, 33, 64, 100, 200}
+	pick := func() int { return sizes[c.Rng.Intn(len(sizes))] }
+	return &tokMat{poolFile: edge(randBytes(c, 32+pick())), k1File: edge(randBytes(c, 8+pick())), k2File: randBytes(c, pick()), attacker: randBytes(c, 32)}
 }
 
 func (m *tokMat) baseCfg(c *Ctx) cfgKnobs {
@@ -77,7 +90,9 @@ func (m *tokMat) baseCfg(c *Ctx) cfgKnobs {
 	}
 }
 
-var tokSubs = []string{"alice@pool.example", "bob", "carol@a@b", "d@", "eve@htc", "x"}
+// subjects: case, non-ASCII and inner white space must survive unchanged into the recorded identity
+var tokSubs = []string{"alice@pool.example", "bob", "carol@a@b", "d@", "eve@htc", "x",
+	"Alice@Pool.Example", "BOB", "mIxEd.Case@HTC", "z\u00fcrich@x", "first last@pool.example", "\u0130stanbul"}
 
 func flipBit(c *Ctx, s string, lo, hi int) string {
 	b := []byte(s)
